@@ -581,8 +581,10 @@ class WCS(object):
         if isscalar(lon):
             x, y = self._findxy_one(lon, lat, xtol=xtol)
         else:
-            x = np.zeros_like(lon)
-            y = np.zeros_like(lon)
+            # float output whatever the type of the input (zeros_like would
+            # truncate the pixel positions for integer-valued sky positions)
+            x = np.zeros(np.shape(lon), dtype="f8")
+            y = np.zeros(np.shape(lon), dtype="f8")
 
             for i in range(lon.size):
                 x[i], y[i] = self._findxy_one(lon[i], lat[i], xtol=xtol)
